@@ -46,6 +46,7 @@ class Ctl:
         self.count = {}
         self.raised = []
         self.budget = None  # optional: raise SimInterrupt at the k-th seam call
+        self.sink = None  # optional: list shared with recording arrays (C04)
 
     def arm(self, plan):
         self.plan = plan or {}
@@ -279,7 +280,9 @@ def make_probed(fsic, base_cls, check=None):
             if ctl.budget < 0:
                 rec['exc'] = 'SimInterrupt'
                 raise SimInterrupt()
-        ctl.phase = hook
+        sink = getattr(ctl, 'sink', None)
+        if sink is not None:
+            sink.append(('@', 'begin', hook, int(t)))
         try:
             fn(self, t, **kw)
         except BaseException as e:
@@ -287,7 +290,8 @@ def make_probed(fsic, base_cls, check=None):
             ctl.raised.append(e)
             raise
         finally:
-            ctl.phase = None
+            if sink is not None:
+                sink.append(('@', 'end', hook, int(t)))
             if -n <= t < n:
                 rec['post_endo'] = [float(d['_' + nm][t]) for nm in endo]
                 rec['post'] = [float(d['_' + nm][t]) for nm in chk]
